@@ -127,7 +127,7 @@ __CPROVER_ensures(self->m_eraseCount < self->m_eraseThreshold)'''),
         Mutant('compaction_one_late', XM, r'if \(m_eraseCount == m_eraseThreshold\)', 'if (m_eraseCount > m_eraseThreshold)', expect='compacted'),
         Mutant('removed_entry_not_marked', XM, r'        toRemovePos\.baseIterator->erased = true;\n', '', expect='marked erased'),
     ],
-    mechanisms=['XalanMap lookup / insert / erase'],
+    mechanisms=['XalanMap lookup / insert / erase', 'insert / find / erase / rehash / compaction'],
     assumptions=['the map is observed at ONE arbitrary key: its bucket is a sequence of g_blen slots of which at most one is live with an equal key (uniqueness of live keys is the representation invariant insert/operator[] maintain: they create only after find says absent); erased slots are skipped before the key is compared',
                  'doHash, doCreateEntry (unit c20_map_create), compactBuckets, rehash and the entry lists (XalanList, units c20_splice / c20_listnodes) are taken by contract',
                  'mapped values are identified by their entry handle'],
